@@ -358,6 +358,9 @@ def run_extraction(ex: Extraction, report):
         if pos[0] == "loop":
             k = int(pos[1])
             ms = [m for m in re.finditer(r"\b(loop|while|for)\b", mk) if t.o[m.start()] > 0]
+            if len(ms) < k and args.get("optional"):
+                rec["rewrites"].append({"rule": "optional splice skipped (loop absent)", "loop": k})
+                continue
             if len(ms) < k:
                 raise LostAnchor("loop #%d not found in %s" % (k, rec["item"]))
             m = ms[k - 1]
@@ -374,6 +377,10 @@ def run_extraction(ex: Extraction, report):
             rx = pos[1]
             nth = int(pos[2]) if len(pos) > 2 else 1
             m = _nth_match(rx, t.s, mk, nth, t.o)
+            if not m and args.get("optional"):
+                # proof text for a statement that the current code does not have: nothing to attach it to (the proof then has to do without)
+                rec["rewrites"].append({"rule": "optional splice skipped (anchor absent)", "anchor": rx})
+                continue
             if not m:
                 raise LostAnchor("splice anchor /%s/ #%d not found in %s" % (rx, nth, rec["item"]))
             if pos[0] == "before":
@@ -715,7 +722,10 @@ def render(template_path, out_path, vacuity=False, autoimport=()):
                     raise Unsupported("%s:%d: non-directive line inside extract block" % (src_lines[i][1], src_lines[i][2]))
                 d = d[3:].strip()
                 if d.startswith("splice"):
-                    where = d[len("splice"):].strip()
+                    optional = d.startswith("spliceopt")
+                    where = d[len("spliceopt" if optional else "splice"):].strip()
+                    if optional:
+                        where = "optional=1 " + where
                     tl = i + 1
                     buf = []
                     while i + 1 < len(lines) and lines[i + 1].strip().startswith("//@ |"):
